@@ -216,9 +216,8 @@ Fixpoint nav_fwd (n : node) (key : bytes) (depth : nat) : option (list entry) :=
       end
   end.
 
-(** the same for a descending iterator (childForKeyDesc: the last child with
-    that byte... scanning from the end), continuing with the earlier leaves in
-    reverse order *)
+(** the same for a descending iterator (childForKeyDesc: also the first child
+    with that byte), continuing with the earlier leaves in reverse order *)
 Fixpoint nav_rev (n : node) (key : bytes) (depth : nat) : option (list entry) :=
   match n with
   | Leaf e => Some [e]
@@ -232,7 +231,7 @@ Fixpoint nav_rev (n : node) (key : bytes) (depth : nat) : option (list entry) :=
              match cs with
              | [] => None
              | (x, ch) :: cs' =>
-                 if byte_eqb x b && negb (has_eq cs' b) then
+                 if byte_eqb x b then
                    match nav_rev ch key (S d) with
                    | Some l => Some (l ++ before)
                    | None => None
